@@ -150,7 +150,8 @@ pub fn delivers_plan(dir: &str, fi: usize) -> Option<String> {
     let env = Env::new(&format!("plan{dir}{fi}"))?;
     let (sr, dr) = (env.dir.join("src"), env.dir.join("dst"));
     let t0 = 1_650_000_000u64;
-    let wr = |root: &Path, rel: &str, c: &[u8], secs: u64| -> Option<()> { let f = root.join(rel); std::fs::create_dir_all(f.parent()?).ok()?; std::fs::write(&f, c).ok()?; std::fs::File::options().write(true).open(&f).ok()?.set_modified(std::time::UNIX_EPOCH + std::time::Duration::from_secs(secs)).ok() };
+    // every mtime ends just before the next second (.999999999): whole-second truncation must not round it up
+    let wr = |root: &Path, rel: &str, c: &[u8], secs: u64| -> Option<()> { let f = root.join(rel); std::fs::create_dir_all(f.parent()?).ok()?; std::fs::write(&f, c).ok()?; std::fs::File::options().write(true).open(&f).ok()?.set_modified(std::time::UNIX_EPOCH + std::time::Duration::new(secs, 999_999_999)).ok() };
     std::fs::create_dir_all(&sr).ok()?; std::fs::create_dir_all(&dr).ok()?;
     for (i, n) in NAMES.iter().enumerate() {
         let c = format!("source content of file {i}: {n}").into_bytes();
